@@ -172,13 +172,17 @@ Proof. exact div_sparse_ieee_c06. Qed.
 (* ---- over the WHOLE METHODS generated from pyttb/sptensor.py (Gen/GenSptensor4.v; to_Sp = the generated record read as the shared
         sparse record): whatever sptensor.permute / sptensor.ones return for two stored orders of one tensor is well-formed and the
         same result (same canonical form, entries equal up to order) ---- *)
-Theorem C06_gen_permute : forall (self self' t t' : sptz) (order : vec),
+Theorem C06_gen_permute : forall (self self' t t' : sptz) (order : vec) (order_isbool : bool),
   nonneg_spt self -> nonneg_spt self' -> np_size2 (spt_subs self) <> 0%Z -> np_size2 (spt_subs self') <> 0%Z ->
   wf_sp zisz (to_Sp self) -> wf_sp zisz (to_Sp self') -> sshape (to_Sp self') = sshape (to_Sp self) ->
   Permutation (entries (to_Sp self)) (entries (to_Sp self')) ->
-  sptensor_permute self order = Ok t -> sptensor_permute self' order = Ok t' ->
+  sptensor_permute self order order_isbool = Ok t -> sptensor_permute self' order order_isbool = Ok t' ->
   same_result 0%Z zisz (to_Sp t) (to_Sp t').
 Proof. exact gen_permute_indep. Qed.
+
+(* a boolean order (the dtype tag the translator passes for `order.dtype == bool`, /repo 9c8fdd5) is refused for every receiver *)
+Theorem C06_gen_permute_bool_rejected : forall (self : sptz) (order : vec), sptensor_permute self order true = Err.
+Proof. exact gen_permute_bool_rejected. Qed.
 
 Theorem C06_gen_ones : forall (self self' t t' : sptz),
   wf_sp zisz (to_Sp self) -> wf_sp zisz (to_Sp self') -> sshape (to_Sp self') = sshape (to_Sp self) ->
@@ -196,6 +200,7 @@ Print Assumptions C06_ops_innerprod_kruskal.
 Print Assumptions C06_cont_ttm_chain.
 Print Assumptions C06_ops_generated2.
 Print Assumptions C06_gen_permute.
+Print Assumptions C06_gen_permute_bool_rejected.
 Print Assumptions C06_gen_ones.
 Print Assumptions C06_sorted_check_sound.
 Print Assumptions C06_from_aggregator.
@@ -245,7 +250,7 @@ Proof. vm_compute. repeat split; reflexivity. Qed.
 
 (* the generated methods on a 2x3 tensor stored in two orders: accepted, and the results agree up to stored order *)
 Example C06_gen_example :
-  sptensor_permute (mkspt [[1; 2]; [0; 1]; [1; 0]] [9; -7; 5] [2; 3]) [1; 0] = Ok (mkspt [[2; 1]; [1; 0]; [0; 1]] [9; -7; 5] [3; 2]) /\
-  sptensor_permute (mkspt [[1; 0]; [1; 2]; [0; 1]] [5; 9; -7] [2; 3]) [1; 0] = Ok (mkspt [[0; 1]; [2; 1]; [1; 0]] [5; 9; -7] [3; 2]) /\
+  sptensor_permute (mkspt [[1; 2]; [0; 1]; [1; 0]] [9; -7; 5] [2; 3]) [1; 0] false = Ok (mkspt [[2; 1]; [1; 0]; [0; 1]] [9; -7; 5] [3; 2]) /\
+  sptensor_permute (mkspt [[1; 0]; [1; 2]; [0; 1]] [5; 9; -7] [2; 3]) [1; 0] false = Ok (mkspt [[0; 1]; [2; 1]; [1; 0]] [5; 9; -7] [3; 2]) /\
   sptensor_ones (mkspt [[1; 2]; [0; 1]; [1; 0]] [9; -7; 5] [2; 3]) = Ok (mkspt [[1; 2]; [0; 1]; [1; 0]] [1; 1; 1] [2; 3]).
 Proof. repeat split; reflexivity. Qed.
